@@ -136,7 +136,7 @@ func runC12(p *C12Plan) (*stats.Case, error) {
 			h[k] = strings.Join(v, ",")
 		}
 		srvMu.Lock()
-		srvCalls = append(srvCalls, whCall{URL: r.URL.Path, Method: r.Method, Headers: h, Body: string(b)})
+		srvCalls = append(srvCalls, whCall{URL: r.URL.RequestURI(), Method: r.Method, Headers: h, Body: string(b)})
 		o := nextOutcome()
 		srvMu.Unlock()
 		switch o {
@@ -170,13 +170,17 @@ func runC12(p *C12Plan) (*stats.Case, error) {
 	}
 	defer func() { s.Close() }()
 	urlOf := func(i int) string {
+		base := "http://hook.invalid"
 		if p.Real {
-			if i%4 == 3 {
-				return fmt.Sprintf("%s/Hook/0", srv.URL) // differs from URL 0 by letter case only: a webhook of its own
-			}
-			return fmt.Sprintf("%s/hook/%d", srv.URL, i%4)
+			base = srv.URL
 		}
-		return fmt.Sprintf("http://hook.invalid/%d", i%4)
+		switch i % 4 {
+		case 3:
+			return base + "/Hook/0" // differs from URL 0 by letter case only: a webhook of its own
+		case 2:
+			return base + "/hook/2?sig=a%2Bb%3D&t=1+2" // escapes and a plus sign are part of the registered URL
+		}
+		return fmt.Sprintf("%s/hook/%d", base, i%4)
 	}
 	model := map[string]*whModel{}
 	order := []string{}
